@@ -41,6 +41,7 @@ func (s *scope) pushForRange(loopVar string) (lVar, lInit, lStep, lCount, lIndex
 	n := strconv.Itoa(s.n)
 	s.stack = append(s.stack, map[string]string{
 		loopVar:   loopVar + n,
+		"__var":   loopVar,
 		"__limit": loopVar + "Limit" + n,
 		"__index": loopVar + "Index" + n,
 	})
@@ -56,6 +57,7 @@ func (s *scope) pushForEach(loopVar string) (lVar, lList, lLen, lIndex string) {
 	n := strconv.Itoa(s.n)
 	s.stack = append(s.stack, map[string]string{
 		loopVar:   loopVar + n,
+		"__var":   loopVar,
 		"__limit": loopVar + "Limit" + n,
 		"__index": loopVar + "Index" + n,
 	})
@@ -65,12 +67,13 @@ func (s *scope) pushForEach(loopVar string) (lVar, lList, lLen, lIndex string) {
 		loopVar + "Index" + n
 }
 
-// looplimit returns the JS variable name for the innermost loop limit.
-func (s *scope) looplimit() string {
-	return s.lookup("__limit")
-}
-
-// looplimit returns the JS variable name for the innermost loop index.
-func (s *scope) loopindex() string {
-	return s.lookup("__index")
+// loop returns the JS variable names for the index and the limit of the
+// innermost loop whose variable is loopVar, or empty strings if there is none.
+func (s *scope) loop(loopVar string) (index, limit string) {
+	for i := len(s.stack) - 1; i >= 0; i-- {
+		if frame := s.stack[i]; frame["__var"] == loopVar && frame["__index"] != "" {
+			return frame["__index"], frame["__limit"]
+		}
+	}
+	return "", ""
 }
